@@ -13,7 +13,8 @@ RULE = ('well-formed BED3 / BED6 / FASTQ / two-line FASTA / wrapped FASTA files 
         'character outside the strand alphabet, record not starting with its marker, "+" line replaced or really missing, different column count) '
         '(also in float columns mixing plain and scientific notation and in Optional[int] columns with "." placeholders: illegal character, two decimal points, no digit) injected at every record position x every chunk size 1..size+2 and whole read x {lazy, eager} x {BytesIO reader in seek / '
         'prepend mode, real plain / .gz file through bnp.open}; plus unviolated controls. non-trivial = violation not in the first '
-        'chunk (the line offset bookkeeping matters)')
+        'chunk (the line offset bookkeeping matters); "#" header lines before the data; values of 20+ characters with a 19-digit '
+        'tail; BED6 files of ~70000 records with the violation past record 65536 (only the expected line goes to Coq)')
 EXHAUSTIVE = {'quick': False, 'thorough': False}
 TIE = 'translator+correspondence (Gen/C01.v regenerated from parser.py, one_line_buffer.py, fastq_buffer.py, delimited_buffers.py, npdataclassreader.py; Bridge/C01.v; reader state machine + cut functions evaluated in Coq on the same bytes and chunk size)'
 ASSUMPTIONS = ['the violating characters are chosen outside the characters the alphabet tables accept by the (separately recorded) C06 defect',
